@@ -21,6 +21,7 @@ def run(prog, chk):
     chk.defer(host_char_table, prog, chk)
     chk.defer(string_param_table, prog, chk)
     chk.defer(endpoint_string_writers, prog, chk)
+    chk.defer(tcp_endpoint_table, prog, chk)
     chk.defer(_run, prog, chk)
 
 
@@ -682,3 +683,131 @@ def endpoint_string_writers(prog, chk):
             chk.ob("C20.epwrite", fn.name, not bad, "%d endpoint string(s) set through an allocating setter%s" % (good, "; written in place: %s" % bad if bad else ""), loc=fn.loc(), fn=fn)
     if n < 8:
         raise AnalysisBroken("C20.epwrite: only %d functions that set endpoint strings recognised" % n)
+
+
+def tcp_endpoint_table(prog, chk):
+    """"ksi+tcp selects the TCP transport ... host, port preserved exactly": the URI splitter hands the host without brackets, so an
+    IPv6 host reaches the TCP endpoint setters with colons in it.  Both setters (blocking and asynchronous) are evaluated on the host
+    forms of the statement - name, IPv4, IPv6 as handed on - and the port bounds: the call succeeds and the endpoint ends up with a copy
+    of exactly that host string and that port.  The host is a byte buffer; strlen / strchr / strpbrk / strcmp and the copy functions are
+    evaluated on it, so a test of the host's characters in the setter is a row of the table, not an unknown."""
+    from ksirules.bufinterp import BufInterp, Off
+    from ksirules.interp import inline_model, unit_helpers
+    chk.rule("C20.tcpendpoint", "TCP endpoint setters (blocking, asynchronous): every host form of the statement and ports 1 / 65535 are accepted and "
+                                "stored unchanged (sibling table)", floor=10)
+    sites = [("ksi_TcpClient_setService", "net_tcp.c", 2, 3), ("setService", "net_tcp_async.c", 1, 2)]
+    hosts = ("h.example", "10.0.0.1", "::1", "2001:db8::7", "::ffff:10.0.0.1")
+    for fname, unit, hi, pi in sites:
+        fn = [f for f in prog.functions.get(fname, []) if f.unit == unit]
+        if len(fn) != 1:
+            raise AnalysisBroken("%s not found in %s" % (fname, unit))
+        fn = fn[0]
+        pn = [p["n"] for p in fn.params]
+        for host in hosts:
+            for port in (1, 65535):
+                copies = {}
+
+                def getstr(I, p, v):
+                    if isinstance(v, Ptr) and isinstance(v.what, str) and v.what.startswith("str:"):
+                        return list(v.what[4:].encode("latin1"))        # a string literal of the source
+                    o = I.as_off(v)
+                    if o is None:
+                        return None
+                    out, k = [], o.off
+                    while True:
+                        c = I.read(p, "%s[%d]" % (o.base, k))
+                        if not isinstance(c, int):
+                            return None
+                        if c == 0:
+                            return out
+                        out.append(c)
+                        k += 1
+
+                def strlen_(I, p, node, args):
+                    sv = getstr(I, p, args[0])
+                    return len(sv) if sv is not None else TOP
+
+                def find(kind):
+                    def f(I, p, node, args):
+                        o, sv = I.as_off(args[0]), getstr(I, p, args[0])
+                        if o is None or sv is None:
+                            return TOP
+                        if kind == "pbrk":
+                            acc = getstr(I, p, args[1])
+                            if acc is None:
+                                return TOP
+                            idx = [k for k, c in enumerate(sv) if c in acc]
+                        else:
+                            if not isinstance(args[1], int):
+                                return TOP
+                            idx = [k for k, c in enumerate(sv) if c == args[1]]
+                        if not idx:
+                            return 0
+                        return Off(o.base, o.off + (idx[-1] if kind == "rchr" else idx[0]))
+                    return f
+
+                def span(inside):
+                    def f(I, p, node, args):
+                        sv, acc = getstr(I, p, args[0]), getstr(I, p, args[1])
+                        if sv is None or acc is None:
+                            return TOP
+                        k = 0
+                        while k < len(sv) and ((sv[k] in acc) == inside):
+                            k += 1
+                        return k
+                    return f
+
+                def dup_into(argi_src, argi_dst):
+                    def f(I, p, node, args):
+                        sv = getstr(I, p, args[argi_src])
+                        a = strip(node["a"][argi_dst])
+                        key = I.canon(p, lvalue_key(a["e"], I.fn)) if isinstance(a, dict) and a.get("k") == "un" else None
+                        if sv is None or key is None:
+                            return TOP
+                        nm = "COPY%d" % len(copies)
+                        copies[nm] = bytes(sv).decode("latin1")
+                        I.write(p, key, Ptr(nm))
+                        return 0
+                    return f
+                ov = {"strlen": strlen_, "strchr": find("chr"), "strrchr": find("rchr"), "strpbrk": find("pbrk"), "strspn": span(True), "strcspn": span(False),
+                      "KSI_strdup": dup_into(0, 1), "KSI_free": lambda I, p, n, a: TOP, "KSI_LOG_debug": lambda I, p, n, a: TOP}
+                inputs = {n_: Ptr(n_.upper()) for n_ in pn}
+                inputs[pn[hi]] = Ptr("HOST")
+                inputs[pn[pi]] = port
+                bufs = {"HOST": len(host) + 1}
+                for k, c in enumerate(host.encode() + b"\0"):
+                    inputs["HOST[%d]" % k] = c
+                for nm_, txt in ((pn[pi + 1].upper(), "anon"), (pn[pi + 2].upper(), "s3cr3t")):
+                    bufs[nm_] = len(txt) + 1
+                    for k, c in enumerate(txt.encode() + b"\0"):
+                        inputs["%s[%d]" % (nm_, k)] = c
+                # string literals the setter may compare the host with are global data of the unit: handled by the evaluator
+                if fname == "ksi_TcpClient_setService":
+                    inputs.update({"ABS_ENDP->implCtx": Ptr("EP"), "EP->host": 0, "EP->port": 0})
+                    # the string-parameter setter is an indirect call through the client: a copy of the string lands in the slot
+                    setp = dup_into(1, 0)
+
+                    def indirect(I, p, node, name, args, callee_val, base=None):
+                        if not name and len(args) == 2:
+                            return setp(I, p, node, args)
+                        return base(I, p, node, name, args, callee_val)
+                else:
+                    inputs.update({"%s->host" % pn[0].upper(): 0, "%s->port" % pn[0].upper(): 0})
+                    indirect = None
+                base = succeed_model(prog, ov)
+                hs = unit_helpers(prog, fn) - set(ov)
+                base2 = inline_model(prog, hs, fallback=base) if hs else base
+                model = (lambda I, p, node, name, args, cv: indirect(I, p, node, name, args, cv, base=base2)) if indirect else base2
+                I = BufInterp(fn, bufs, inputs=inputs, call_model=model, on_unknown="stop", prog=prog, loop_bound=len(host) + 4)
+                paths = I.run()
+                chk.paths += len(paths)
+                inst = "%s:%s[host %s, port %d]" % (unit, fname, host, port)
+                if len(paths) != 1 or paths[0].undetermined:
+                    raise AnalysisBroken("%s: evaluation not determined: %s" % (inst, [q.undetermined[:1] for q in paths]))
+                q = paths[0]
+                obj = "EP" if fname == "ksi_TcpClient_setService" else pn[0].upper()
+                hv, pv = I.read(q, obj + "->host"), I.read(q, obj + "->port")
+                got = (copies.get(hv.what) if isinstance(hv, Ptr) else None, pv)
+                chk.ob("C20.tcpendpoint", inst, q.ret == 0 and got == (host, port),
+                       "expected KSI_OK and the endpoint holding (%r, %d); source: status %s, endpoint holds %s" % (host, port, hex(q.ret) if isinstance(q.ret, int) else q.ret, got),
+                       loc=fn.loc(), fn=fn, nontrivial=":" in host)
